@@ -205,7 +205,7 @@ class Ref:
             t = evaluate(st[1], self.env, self.labels)
             return ITE(GE(t, addr), t - addr + E.bvval(1), E.bvval(0))
         if k == 'instr':
-            return E.bvval({'nop': 1, 'nib': 1, 'ld8': 2, 'ld16': 3}[st[1]])
+            return E.bvval({'nop': 1, 'nib': 1, 'ld8': 2, 'ld16': 3, 'nn2': 2}[st[1]])
         return E.bvval(0)
 
     def _segment(self, r: Rec):
@@ -226,6 +226,8 @@ class Ref:
                 return ('bytes', [E.bvval(0x00)])
             if m == 'nib':
                 return ('bytes', [E.bvval(0xA0)])
+            if m == 'nn2':
+                return ('bytes', [E.bvval(0xA0), E.bvval(0xA0)])
             v = evaluate(st[2], self.env, self.labels)
             if m == 'ld8':
                 return ('bytes', [E.bvval(0x10)] + O.value_bytes(v, 1, self.endian))
